@@ -101,7 +101,7 @@ pub fn observe(w: &mut World, cx: &mut Ctx) -> R {
         Prop::C12 => observe_c12(w, cx),
         Prop::C13 => observe_c13(w, cx),
         Prop::C14 => observe_c14(w, cx),
-        Prop::C15 => Ok(()),
+        Prop::C15 => observe_c15(w, cx),
         Prop::C16 => observe_c16(w, cx),
         Prop::C20 => crate::notation::observe_c20(w, cx),
     }
@@ -802,6 +802,32 @@ pub fn request(w: &mut World, mv: MMove, via: Via, cx: &mut Ctx) -> R {
     cx.stats.plies += 1;
     w.sync_or(cx, &[Prop::C02], "successor", &format!("after requested {}", mv.text()))?;
     observe(w, cx)
+}
+
+/// Per-state part of C15: every request that moves the king (64 destinations, with and without a
+/// promotion piece) - the castling-shaped requests are the ones with the most special-case code.
+fn observe_c15(w: &World, cx: &mut Ctx) -> R {
+    let Some(k) = w.model.king_sq(w.model.stm) else { return Ok(()) };
+    let at = w.model.to_fen(true);
+    for to in 0..64u8 {
+        for promo in [0u8, 5] {
+            let mv = MMove { from: k, to, promo };
+            let legal = w.legal.contains(&mv);
+            let mut c = w.real.clone();
+            match guard(|| c.try_play(to_real(mv))) {
+                Err(()) => cx.fail(format!("C15/panic/try_play-{}", move_kind(&w.model, mv)), format!("{} at {}", mv.text(), at))?,
+                Ok(r) => {
+                    if r.is_ok() != legal {
+                        let class = if legal { "C15/legal-move-refused/try".to_string() } else { format!("C15/illegal-move-accepted/{}", move_kind(&w.model, mv)) };
+                        cx.fail(class, format!("try_play({}) = {:?}, legal = {} at {}", mv.text(), r.is_ok(), legal, at))?;
+                    } else if r.is_err() && c != w.real {
+                        cx.fail("C15/board-changed-after-reject".into(), format!("{} at {}", mv.text(), at))?;
+                    }
+                }
+            }
+        }
+    }
+    Ok(())
 }
 
 pub fn sweep_try_play(w: &World, cx: &mut Ctx) -> R {
